@@ -26,6 +26,8 @@ def experiment_level(ctx, nexp):
     rng = ctx.rng
     specs = [dict(envs=[["lin", 6, 3], ["group", 0, 0]], lrns=[["count", 1], ["kwargs"]], vals=[["seq"]], groups=[dict(n=6, seed=5, prefix=None, fan=1, batch=2)], triples=[[0, 0, 0], [1, 0, 0], [0, 1, 0], [1, 1, 0]]),
              dict(envs=[["lin", 6, 3]], lrns=[["count", 2]], vals=[["seq"], ["seq2", 3]], groups=[], triples=[[0, 0, 0], [0, 0, 1]]),
+             # a learner that fails with one and the same exception object on a batched environment (batched call, then the per-row fallback)
+             dict(envs=[["group", 0, 0], ["lin", 6, 3]], lrns=[["failing", "predict-same", 1], ["count", 1]], vals=[["seq"]], groups=[dict(n=6, seed=5, prefix=None, fan=1, batch=2)], triples=[[0, 0, 0], [0, 1, 0], [1, 0, 0], [1, 1, 0]]),
              dict(envs=[["lin", 6, 3], ["lin", 6, 4]], lrns=[["count", 1], ["failing", "learn", 2]], vals=[["seq"]], groups=[], triples=[[0, 0, 0], [0, 1, 0], [1, 0, 0], [1, 1, 0]]),
              dict(envs=[["lin", 5, 8], ["lin", 5, 9]], lrns=[["failing", "predict", 3], ["kwargs"]], vals=[["seq"]], groups=[], triples=[[0, 0, 0], [1, 1, 0], [1, 0, 0], [0, 1, 0]]),
              # an environment object that can be iterated like a pipeline and whose iteration fails: only its own triples are lost
